@@ -28,6 +28,9 @@ def main():
         if not os.path.exists(mp):
             continue
         meta = json.load(open(mp))
+        if os.path.basename(d).startswith("N"):
+            out.append("| %s | none (reclassified: %s) | %s | not an alarm |" % (os.path.basename(d), meta.get("breaks_property_claimed"), meta["needs_to_manifest"].replace("|", "/")))
+            continue
         ver = ", ".join("%s %s" % (k, v) for k, v in sorted(meta.get("checks", {}).items()))
         out.append("| %s | %s | %s | %s |" % (os.path.basename(d), meta["breaks_property"], meta["needs_to_manifest"].replace("|", "/"), ver))
     out.append("")
